@@ -360,7 +360,7 @@ Proof.
   destruct F as (ba1 & bl1 & er0 & q_liq & q_fin & ins_fee & i1 & la1 & b1 & bl2 & b1' & i2 & b2 & ba2 & b2' & i3 & la3 & b3 & ba3 & b3' &
           i4 & b4 & bl3 & b4' & ins_n & f & ba4 & bl5 & F).
   cbv zeta in F.
-  destruct F as (Hamt & Hne & Hacca & Haccl & Hr0 & Hif & Hif0 & Hqf0 & Hloc1 & Hb1 & Hdec1 & Hi2 & Hb2 & Hdec2 & Hloc3 & Hb3 & Hinc3 &
+  destruct F as (Hamt & Hne & _ & Hacca & Haccl & Hr0 & Hif & Hif0 & Hqf0 & Hloc1 & Hb1 & Hdec1 & Hi2 & Hb2 & Hdec2 & Hloc3 & Hb3 & Hinc3 &
                  Hi4 & Hb4 & Hinc4 & Hinsn & Hvle & Hf & Hrange & Hca & Hcl & -> & -> & -> & ->).
   apply usub_inv in Hif as [-> _].
   destruct (accrue_tot _ _ _ _ Hoka Hacca) as (Ta1 & Ta2 & Hsva1).
@@ -467,8 +467,8 @@ Proof.
 Qed.
 
 (* ---------------------------------------------------------------- every instruction keeps the world well-formed *)
-Definition hop_ok2 (o : hop) : Prop :=
-  hop_ok o /\ match o with HLiquidate liqor liqee _ _ _ => liqor <> liqee | _ => True end.
+(* kept as a name: instructions carry u64 amounts (a liquidator liquidating itself is refused by the handler) *)
+Definition hop_ok2 (o : hop) : Prop := hop_ok o.
 
 Lemma Ledger_frame banks accts n p n' p' : Ledger (mkBW banks accts n p) -> Ledger (mkBW banks accts n' p').
 Proof. intros [L1 L2 L3]. constructor; assumption. Qed.
@@ -490,7 +490,7 @@ Theorem hstep_HOk2 w o w' :
   HOk2 w -> hop_ok2 o -> hstep w o = Ok w' ->
   HOk2 w' \/ exists a b hb', o = HBankruptcy a b /\ nth_bank w' b = Ok hb' /\ b_op_state (hb_b hb') = OP_KILLED.
 Proof.
-  intros H2 (Hop & Hop2) H. pose proof H2 as (Hpf & L & Hb).
+  intros H2 Hop H. pose proof H2 as (Hpf & L & Hb).
   destruct o; cbn [hstep hop_ok] in *.
   - (* clock *) apply Ok_inj in H. subst w'. left. split; [exact Hpf|]. split; [|exact Hb].
     unfold HLedger, bw_of in *. cbn [hw_banks hw_accts hw_now hw_pf]. eapply Ledger_frame; eauto.
@@ -505,6 +505,7 @@ Proof.
     left.
     destruct (h_liquidate_effect _ _ _ _ _ _ _ H) as (ha & hl & ha' & hl' & ee & er & ee3 & er3 & Ea & El & Eee & Eer & Eb & Eacc & En & Ep & Er & F).
     pose proof (liquidate_facts_ne _ _ _ _ _ _ _ _ _ _ _ _ _ _ F) as Hne.
+    pose proof (liquidate_facts_distinct _ _ _ _ _ _ _ _ _ _ _ _ _ _ F) as Hop2.
     pose proof (HOk2_HOk _ H2) as (_ & _ & Haccts).
     destruct (Hb _ _ Ea) as (Hoka & Hfra). destruct (Hb _ _ El) as (Hokl & Hfrl).
     destruct (Haccts _ _ Eee) as (Wee & Pee).
@@ -519,7 +520,7 @@ Proof.
     + destruct F as (ba1 & bl1 & er0 & q_liq & q_fin & ins_fee & i1 & la1 & b1 & bl2 & b1' & i2 & b2 & ba2 & b2' & i3 & la3 & b3 & ba3 & b3' &
           i4 & b4 & bl3 & b4' & ins_n & f & ba4 & bl5 & F).
       cbv zeta in F.
-      destruct F as (_ & _ & Hacca & Haccl & _ & _ & _ & _ & _ & _ & Hdec1 & _ & _ & Hdec2 & _ & _ & Hinc3 &
+      destruct F as (_ & _ & _ & Hacca & Haccl & _ & _ & _ & _ & _ & _ & Hdec1 & _ & _ & Hdec2 & _ & _ & Hinc3 &
                  _ & _ & Hinc4 & _ & _ & _ & _ & Hca & Hcl & -> & -> & _ & _).
       eapply banks_ok_set2; [exact Hb|exact Eb|exact Hoka'| |exact Hokl'|].
       * cbn [set_hb_b hb_b]. eapply fees_rep_gp; [|exact (gp_cache _ _ _ _ Hca)].
@@ -555,7 +556,7 @@ Fixpoint run_no_wipeout (w : hworld) (ops : list hop) : Prop :=
   end.
 
 Lemma hop_ok2_hop_ok o : hop_ok2 o -> hop_ok o.
-Proof. intros [H _]. exact H. Qed.
+Proof. intros H. exact H. Qed.
 
 Theorem hrun_keeps_HOk2 ops : forall w, HOk2 w -> Forall hop_ok2 ops -> run_no_wipeout w ops ->
   HOk2 (hrun w ops) /\ run_ok w ops.
